@@ -87,10 +87,13 @@ def color(value: str):
 # ---------------------------------------------------------------------------------------------------------------------
 # tags
 
+_FONT_ATTR = re.compile(r"([a-z]+)[ \t]*=[ \t]*(\"[^\"<>]*\"|'[^'<>]*'|[^\s<>\"']+)", re.IGNORECASE)
+KEEP = object()        # a <font> tag without a color attribute (face, size only): encloses text, changes no colour
+
 _TAG = re.compile(
   r"<(?P<ac>/?)(?P<an>[biu])>"
   r"|\{(?P<bc>/?)(?P<bn>[biu])\}"
-  r"|<font[ \t]+color[ \t]*=[ \t]*(?P<col>\"[^\"<>]*\"|'[^'<>]*'|[^\s<>\"']+)[ \t]*>"
+  r"|<font(?P<fattrs>(?:[ \t]+[a-z]+[ \t]*=[ \t]*(?:\"[^\"<>]*\"|'[^'<>]*'|[^\s<>\"']+))*)[ \t]*>"
   r"|(?P<fc></font>)",
   re.IGNORECASE)
 
@@ -107,7 +110,7 @@ def styled_lines(raw_lines, brace_syntax=True):
   def style():
     col = None
     for name, c in stack:
-      if name == "font":
+      if name == "font" and c is not KEEP:
         col = c
     names = [name for name, _ in stack]
     return Style("b" in names, "i" in names, "u" in names, col)
@@ -128,10 +131,14 @@ def styled_lines(raw_lines, brace_syntax=True):
     pos = m.end()
     if is_brace:
       brace = True
-    if m.group("col") is not None:
-      c = color(m.group("col").strip("\"'"))
-      if c is None:
-        ok = False
+    if m.group("fattrs") is not None:
+      attrs = {k.lower(): v.strip("\"'") for k, v in _FONT_ATTR.findall(m.group("fattrs"))}
+      if "color" in attrs:
+        c = color(attrs["color"])
+        if c is None:
+          ok = False
+      else:
+        c = KEEP
       stack.append(("font", c))
       continue
     if m.group("fc") is not None:
